@@ -13,11 +13,9 @@ import (
 	"math/big"
 	"os"
 	"reflect"
-	"runtime/debug"
 	"sort"
 	"strconv"
 	"strings"
-	"sync"
 	"time"
 	"unicode"
 	"unicode/utf8"
@@ -41,7 +39,6 @@ func init() {
 		Exhaustive: true,
 		Gen:        genC18,
 		Run:        runC18,
-		RunChild:   runC18Child,
 		Compare:    cmpC18,
 		Shrink:     shrinkC18,
 		Workers:    1, // openapi3gen's package-level typeInfos table is filled racily: two goroutines meeting a type for the first time get different *theTypeInfo, one cycle test is then missed and the schema is expanded one level more
@@ -52,7 +49,6 @@ func init() {
 			"a SchemaCustomizer is exercised through the three ways it can return (nil, ExcludeSchemaSentinel, another error), not through edits of the schema",
 			"type-name generators are injective on the declared names of a case (otherwise the case is outside the domain)",
 			"generation runs on one goroutine (first-time concurrent use of one type changes where cycles are cut)",
-			"types containing `type L []L` / `type M map[string]M` are evaluated in a child process (the generator overflows the stack)",
 		},
 	})
 }
@@ -392,46 +388,11 @@ func c18Options(c hx.Case) []openapi3gen.Option {
 
 var errC18Custom = errors.New("custom failure")
 
-func c18HasRecs(d obj) bool {
-	switch jstr(d, "k") {
-	case "recs":
-		return true
-	case "ptr", "slice", "map", "array":
-		return c18HasRecs(asObj(d["e"]))
-	case "def":
-		return c18HasRecs(asObj(d["u"]))
-	case "struct":
-		for _, f := range jlist(d["fields"]) {
-			if c18HasRecs(asObj(asObj(f)["t"])) {
-				return true
-			}
-		}
-	}
-	return false
-}
-
 // ------------------------------------------------------------------ run the real code
 
-func runC18(c hx.Case) any {
-	risky := c18HasRecs(asObj(c["type"]))
-	for _, d := range jlist(c["decls"]) {
-		for _, f := range jlist(asObj(d)["fields"]) {
-			risky = risky || c18HasRecs(asObj(asObj(f)["t"]))
-		}
-	}
-	if risky {
-		return hx.RunIsolated("C18", c, 30000)
-	}
-	return runC18Direct(c)
-}
-
-var c18StackOnce sync.Once
-
-// runC18Child is what the child process evaluates: the stack limit is lowered so that unbounded recursion ends quickly.
-func runC18Child(c hx.Case) any {
-	c18StackOnce.Do(func() { debug.SetMaxStack(64 << 20) })
-	return runC18Direct(c)
-}
+// runC18: in-process (since 0916db1 no supported type makes the generator overflow the stack; a crash would be reported
+// by the engine as a panic / by the check as a missing result)
+func runC18(c hx.Case) any { return runC18Direct(c) }
 
 func runC18Direct(c hx.Case) any {
 	t := c18Build(asObj(c["type"]))
@@ -598,9 +559,7 @@ func cmpC18(c hx.Case, impl any, reply map[string]any) hx.Verdict {
 		// "schemas generated for recursive types are finite": the generator did not even return
 		v.IS = false
 		v.Detail = "property fails: the generator does not terminate (" + fmt.Sprint(im["crash"]) + ")"
-		if outcome != "diverge" {
-			fail("model outcome " + outcome + ", implementation crashed")
-		}
+		fail("model outcome " + outcome + ", implementation crashed")
 		return v
 	}
 	// the property on this input: generation succeeds (unless the caller asked for errors: ThrowErrorOnCycle, a failing
@@ -1307,7 +1266,7 @@ func genC18(ctx *hx.Ctx, emit func(hx.Case)) {
 	}
 	// 3. declared zoo
 	c18ZooCases(ctx, emit)
-	// 4. the self-recursive container types (each evaluation costs a child process: few)
+	// 4. the self-recursive container types
 	for _, t := range []obj{{"k": "recs", "m": false}, {"k": "recs", "m": true}, st(fld("A", "a", obj{"k": "recs", "m": false}))} {
 		decls := map[string]any{}
 		emit(c18CaseO(t, c18Value(r, t, decls, 2), false, nil))
